@@ -42,9 +42,38 @@ pub fn dispatch(_cex: &Value) -> Result<String, String> {
       ("EdDSA named, P-256 key and signature", JwsAlgorithm::EdDSA, &ps, &p_jwk, false),
       ("ES384 named, P-256 key and signature", JwsAlgorithm::ES384, &ps, &p_jwk, false),
       ("ES256 / P-256 key / secp256k1 signature", JwsAlgorithm::ES256, &ks, &p_jwk, false),
+      ("ES256 / P-256 signature followed by extra bytes", JwsAlgorithm::ES256, &{ let mut v = ps.clone(); v.push(0); v }, &p_jwk, false),
+      ("ES256K / secp256k1 signature followed by extra bytes", JwsAlgorithm::ES256K, &{ let mut v = ks.clone(); v.push(0); v }, &k_jwk, false),
     ] {
       if run(alg, sig, key) != want {
         log.push(format!("[dispatch] EcDSAJwsVerifier: {name}: {}", if want { "rejected" } else { "reported verified" }));
+      }
+    }
+    // Ed25519 (RFC 8037 A.4 vector): the whole decoded signature takes part - extra bytes, a missing byte and every single-bit flip fail
+    {
+      let msg_ed = b"eyJhbGciOiJFZERTQSJ9.RXhhbXBsZSBvZiBFZDI1NTE5IHNpZ25pbmc";
+      let sig = identity_jose::jwu::decode_b64("hgyY0il_MGCjP0JzlnLWG1PPOt7-09PGcvMg3AIbQR6dWbhijcNR4ki4iylGjg5BhVsPt9g7sVvpAr_MuM0KAg").unwrap();
+      let mut ed = Jwk::new(JwkType::Okp);
+      ed.set_params(identity_jose::jwk::JwkParamsOkp { crv: "Ed25519".into(), x: "11qYAYKxCrfVS_7TyWQHOg7hcvPapiMlrwIaaPcHURo".into(), d: None }).unwrap();
+      let run_ed = |s: &[u8]| EdDSAJwsVerifier::default().verify(VerificationInput { alg: JwsAlgorithm::EdDSA, signing_input: msg_ed.as_slice().into(), decoded_signature: s.into() }, &ed).is_ok();
+      if !run_ed(&sig) {
+        log.push("[dispatch] EdDSAJwsVerifier rejects the RFC 8037 A.4 vector".to_owned());
+      }
+      let mut longer = sig.clone();
+      longer.extend_from_slice(&[0, 1, 2]);
+      if run_ed(&longer) {
+        log.push("[dispatch] Ed25519: a valid signature followed by extra bytes is reported verified".to_owned());
+      }
+      if run_ed(&sig[..63]) {
+        log.push("[dispatch] Ed25519: a truncated signature is reported verified".to_owned());
+      }
+      for i in 0..sig.len() {
+        let mut m = sig.clone();
+        m[i] ^= 1 << (i % 8);
+        if run_ed(&m) {
+          log.push(format!("[dispatch] Ed25519: signature with a flipped bit in byte {i} is reported verified"));
+          break;
+        }
       }
     }
     for alg in [JwsAlgorithm::ES256, JwsAlgorithm::ES256K, JwsAlgorithm::HS256] {
